@@ -110,6 +110,12 @@ def gen(rng, ctx):
             loaded = {u for u, _ in cd["edges"]}
             cd["nodes"] = [[n, t, o or (n not in loaded and t != "bb_input")] for n, t, o in cd["nodes"]]
             kind = "selfloop"
+    if kind == "acyclic" and rng.random() < 0.12 and len(cd["nodes"]) <= maxn - 2:
+        cd = G.add_shared_parity(rng, cd)
+        kind = "acyclic"  # counted separately below
+        shared_parity = True
+    else:
+        shared_parity = False
     tag = None
     if rng.random() < 0.35:
         cd, tag = hostile_names(rng, cd)
@@ -136,7 +142,7 @@ def gen(rng, ctx):
     if multi and rng.random() < 0.3:
         g = rng.choice(multi)
         retype = [g, rng.choice([t for t in G.GATESN if t != tps[g]])]
-    return {"c": cd, "kind": kind, "hostile": tag, "assumps": assumps, "via": rng.choice(["graph", "api", "sparse"]), "val_int": rng.random() < 0.3, "retype": retype}
+    return {"c": cd, "kind": kind, "hostile": tag, "assumps": assumps, "via": rng.choice(["graph", "api", "sparse"]), "val_int": rng.random() < 0.3, "retype": retype, "shared_parity": shared_parity}
 
 
 def _lib(ctx, name):
@@ -283,6 +289,8 @@ def decide(case, ctx, c, first):
         ctx.count(f"class:{case['kind']}")
         if case.get("hostile"):
             ctx.count(case["hostile"])
+        if case.get("shared_parity"):
+            ctx.count("shared_parity_operands")
         G.gate_arity_table(cd, ctx.table)
     multi = [n for n in nodes if net.types[n] in G.GATESN and len(net.preds[n]) >= 2]
     if not multi or len(free) < 2:
@@ -401,7 +409,7 @@ def gates(counters, table, tier):
         for a in ("1", "2", "3", "4+"):
             if table.get(f"{t}/{a}", 0) < 3:
                 out.append(f"gate {t} at fan-in {a} seen {table.get(f'{t}/{a}', 0)} times")
-    for k in ("class:selfloop", "requery_after_set_type", "class:cyclic", "class:pins", "answer:unsat", "answer:sat", "cmp:cnf_exhaustive", "cnf_with_aux", "hostile:xor_a_b", "hostile:xor_inv", "class:lib", "class:large", "cnf_large_nodes_checked"):
+    for k in ("shared_parity_operands", "class:selfloop", "requery_after_set_type", "class:cyclic", "class:pins", "answer:unsat", "answer:sat", "cmp:cnf_exhaustive", "cnf_with_aux", "hostile:xor_a_b", "hostile:xor_inv", "class:lib", "class:large", "cnf_large_nodes_checked"):
         if counters.get(k, 0) < 3:
             out.append(f"{k} seen {counters.get(k, 0)} times")
     return out
